@@ -188,6 +188,62 @@ def r5_condition_typing(ctx, T, rule="C12.R5"):
     ctx.require(rule, 3 + 5 + 4)
 
 
+def r6_fixed_length_string_is_a_string(ctx, T, rule="C12.R6"):
+    """A STRING * n operand is typed by the checker exactly like a `$` string operand: for every
+    operator and every type of the other operand, cast_binary_op_et(STRING*n, t) and (t, STRING*n)
+    answer what they answer for BuiltIn($) - in particular a number on the other side is rejected.
+    (The VM treats both as VString; a pair the checker admits only for STRING*n fails at run time
+    with Type mismatch.)"""
+    prog = ctx.prog
+    fs = [f for f in prog.fns.values() if f.name == "cast_binary_op_et" and f.crate == "rusty_linter"]
+    if len(fs) != 1:
+        raise CheckError("anchor cast_binary_op_et")
+    fn = fs[0]
+    eng = T.eng
+    OP = "rusty_parser::core::operator::Operator"
+    fls = eng.make(ET, "FixedLengthString", {})
+    dollar = eng.make(ET, "BuiltIn", {0: tf.Tag(ot.TQ, "DollarString")})
+    others = [("BuiltIn(%s)" % q, eng.make(ET, "BuiltIn", {0: tf.Tag(ot.TQ, q)})) for q in ALLQ]
+    others.append(("FixedLengthString", fls))
+    for v in prog.variants(ET):
+        if v not in ("BuiltIn", "FixedLengthString"):
+            others.append((v, eng.make(ET, v)))
+
+    def res(a, b, op):
+        out = set()
+        for x in eng.summary(fn, (tf.Ref(a), tf.Ref(b), tf.Tag(OP, op))):
+            x = tf.deref(x)
+            if x[0] == "tag" and x[2] == "None":
+                out.add("rejected")
+            elif x[0] == "tag" and x[2] == "Some":
+                inner = tf.deref(x[3][0]) if x[3] else tf.TOP
+                q = tf.deref(inner[3][0]) if inner[0] == "tag" and inner[3] else tf.TOP
+                out.add("%s(%s)" % (inner[2] if inner[0] == "tag" else "?", q[2] if q[0] == "tag" else ""))
+            else:
+                out.add("?")
+        return sorted(out)
+    n = 0
+    for op in prog.variants(OP):
+        for name, other in others:
+            for side in ("left", "right"):
+                a1, b1 = (fls, other) if side == "left" else (other, fls)
+                a2, b2 = (dollar, other) if side == "left" else (other, dollar)
+                if name == "FixedLengthString":
+                    a2, b2 = dollar, dollar
+                got, want = res(a1, b1, op), res(a2, b2, op)
+                n += 1
+                key = "%s:%s(%s STRING*n, %s)" % (rule, op, side, name)
+                if "?" in got or "?" in want:
+                    ctx.unknown(rule, key, fn.loc, "abstract results %s / %s" % (got, want))
+                    continue
+                ctx.decide(got == want, rule, key, fn.loc, "typed like a $ string: %s" % want,
+                           "`STRING*n %s %s` (STRING*n on the %s) is typed %s but the same expression with a $ "
+                           "string is typed %s: the checker and the VM (which sees a VString either way) disagree"
+                           % (op, name, side, got, want))
+    ctx.analysed_units(rule, cells=n)
+    ctx.require(rule, 200)
+
+
 def run(ctx):
     common.install(ctx)
     T = ot.OpTables(ctx.prog)
@@ -197,3 +253,4 @@ def run(ctx):
     c08.r2_builtin_contract(ctx, "C12.R3")
     r4_by_ref_exact(ctx, T)
     r5_condition_typing(ctx, T)
+    r6_fixed_length_string_is_a_string(ctx, T)
